@@ -44,6 +44,17 @@ CHECKS = {
             "Trusted: TLC, the measuring harness (np.shares_memory, allclose against independently loaded .npz/.json), one bit of content "
             "per buffer (ok/dirty) as abstraction.",
             "DESIGN.md section 5 C19"),
+    "C20": (MC, "TLC enumeration and model check of the program space op x aliasing x read-only x callback mode (CallFrame.tla) + "
+                "execution of every program with byte-wise snapshots, judged by TLC",
+            "The operation table (63 public operations with their array/list/dict/object/callback slots) generates Tables_api.tla; TLC "
+            "enumerates every program (operation, shared slot pair, read-only mask, callback-return mode fresh|arg|cached), checks the frame "
+            "property on the design model, completeness of the enumeration, and refutes the as-shipped variant (ODE solvers write the "
+            "callback's array, Poisson solvers write ode_params).  Every program is executed against the library with snapshots of all "
+            "caller-owned buffers (including arrays inside passed grid objects and every array a callback returned), write-protection per "
+            "mask, and comparison of the result with the un-aliased baseline; TLC judges the recorded outcomes (CallFrameTrace.tla).",
+            "Trusted: TLC, the snapshotting harness, the operation table (operations not listed in vf/api_table.py are not checked). "
+            "Programs run in resource-limited child processes; a hang or memory blow-up on an aliased input is reported as a violation.",
+            "DESIGN.md section 5 C20, Appendix F"),
 }
 
 NOT_YET = {}
